@@ -120,14 +120,14 @@ def budgets(kind, tier):
     if tier == 'quick':
         return ({'core': 260, 'single': 30, 'double': 20, 'pct': 20, 'random': 20} if heavy else
                 {'core': 400, 'single': 150, 'double': 100, 'pct': 80, 'random': 80}), 170
-    return ({'core': 1500, 'single': 400, 'double': 300, 'pct': 200, 'random': 200} if heavy else
-            {'core': 3000, 'single': 1500, 'double': 1000, 'pct': 600, 'random': 600}), 900
+    return ({'core': 1200, 'single': 300, 'double': 200, 'pct': 150, 'random': 150} if heavy else
+            {'core': 2000, 'single': 800, 'double': 500, 'pct': 300, 'random': 300}), 600
 
 
 def plan(seed: int, tier: str, deep=False):
     rng = random.Random(seed * 7919 + (17 if deep else 0))
     scs = [scenario_json(*f) for f in FIXED]
-    ngen = 6 if tier == 'quick' and not deep else 30
+    ngen = 6 if tier == 'quick' and not deep else 24
     scs += [scenario_json(*gen_scenario(rng, i)) for i in range(ngen)]
     jobs = []
     for sc in scs:
@@ -288,7 +288,8 @@ def explore(ck: Check, tier: str, seed: int, deep=False) -> Explore:
         edges.update(tuple(e) for e in st['lock_edges'])
         for f in r['failures']:
             failures.append((job, f))
-        if sc['kind'] in ('conf', 'typehint') and all(op[0] in ('conf', 'typehint') for t in sc['threads'] for op in t):
+        if sc['kind'] in ('conf', 'typehint') and all(op[0] in ('conf', 'typehint') for t in sc['threads'] for op in t) \
+                and sum(len(t) for t in sc['threads']) <= 6:
             ident_checks.append((job, st['outcomes']))
     ex.extra['episodes'] = per
     ex.extra['schedule_kinds'] = kinds
